@@ -175,6 +175,8 @@ func (e *Env) DrawSig(t *rapid.T, minParams, maxParams, maxResults int, modes []
 					add(x.Name)
 				case x.Kind == Iface && x.Name == "error":
 					add("error")
+				case x.Kind == Iface && x.Name == "interface{}":
+					add("any") // goderive prints the empty interface as any
 				case x.Kind == Named && x.Decl.Pkg == nil && x.Decl.Generic == nil:
 					add(x.Decl.Name)
 				case x.Kind == Named && x.Decl.Pkg != nil:
